@@ -136,6 +136,30 @@ pub fn run(cx: &mut Ctx) {
             }
             fps[di] = first;
         }
+        // one parsed template instantiated again and again (debug off / on alternating) must give
+        // the bytes of a fresh compilation every time
+        if let Outcome::Ok(tpl) = new_template(text) {
+            for round in 0..6 {
+                let debug = round % 2 == 1;
+                cx.report.evaluations += 1;
+                let got = match instantiate(&tpl, &simfony::Arguments::default(), debug) {
+                    Outcome::Ok(c) => match commit(&c) {
+                        Outcome::Ok(info) => format!("OK {} {}", hex(&info.bytes), hex(&info.cmr)),
+                        _ => "PANIC".to_string(),
+                    },
+                    Outcome::Err(_) => "ERR".to_string(),
+                    Outcome::Panic(_) => "PANIC".to_string(),
+                };
+                let want = &fps[debug as usize];
+                let same = if want.starts_with("OK ") { want.starts_with(&got) } else { *want == got };
+                if !same {
+                    cx.report.violation(json!({"kind": "re-instantiate", "what": format!("{name}: instantiation #{} of one template (debug = {debug}) differs from a fresh compilation", round + 1),
+                        "program": text, "signature": format!("det-template:{:016x}", fnv64(text.as_bytes()))}));
+                    break;
+                }
+                cx.report.count("template_reinstantiations", 1);
+            }
+        }
         local.push(fps);
     }
     // (b) in separately started processes (each has its own hash seeds)
